@@ -734,7 +734,22 @@ def random_jobs(tier, rng, wd, stats):
     return jobs, sorted(used)
 
 
+def load_known_once():
+    """known_findings.json is edited by other checks' authors while this one runs: read it once (with retries on
+    a half-written file) and use that snapshot for the whole run"""
+    for _ in range(20):
+        try:
+            snap = known_findings()
+            break
+        except ValueError:
+            time.sleep(0.5)
+    else:
+        raise ToolError("known_findings.json is not readable")
+    flow.known_findings = lambda: snap
+
+
 def run(tier, seed):
+    load_known_once()
     res = flow.Result(PID, tier, seed)
     rng = random.Random(seed)
     wd = workdir("c01")
